@@ -296,12 +296,19 @@ impl AstVm {
                 ast::StmtKind::CondChain(chain) => {
                     let ast::StmtCondChain { cond_blocks, else_block } = chain;
 
+                    // The time only changes where the compiled code jumps.  The first block is entered by
+                    // falling through the (negated) conditional jump, and the last block is left by falling
+                    // through to the end label; every other transfer is a jump to a label at that time.
                     let mut branch_taken = false;
-                    for ast::CondBlock { keyword, cond, block } in cond_blocks {
+                    let mut ran_last_block = false;
+                    for (index, ast::CondBlock { keyword, cond, block }) in cond_blocks.iter().enumerate() {
                         if self.eval_cond(cond, resolutions) == (keyword == &token![if]) {
                             branch_taken = true;
-                            self.time = start_time(block);
+                            if index > 0 {
+                                self.time = start_time(block);
+                            }
                             handle_block!(block);
+                            ran_last_block = else_block.is_none() && index == cond_blocks.len() - 1;
                             break;
                         }
                     }
@@ -310,9 +317,12 @@ impl AstVm {
                         if let Some(else_block) = else_block {
                             self.time = start_time(else_block);
                             handle_block!(else_block);
+                            ran_last_block = true;
                         }
                     }
-                    self.time = end_time(chain.last_block());
+                    if !ran_last_block {
+                        self.time = end_time(chain.last_block());
+                    }
                 },
 
                 ast::StmtKind::Loop { block, .. } => {
@@ -340,12 +350,14 @@ impl AstVm {
                 },
 
                 ast::StmtKind::Times { clobber: None, count, block, .. } => {
+                    let time_at_entry = self.time;
                     self.time = end_time(block);
                     match self.eval_int(count, resolutions) {
                         0 => {},
                         count => {
-                            for _ in 0..count {
-                                self.time = start_time(block);
+                            for iteration in 0..count {
+                                // the first iteration is entered by falling through, not by a jump
+                                self.time = if iteration > 0 { start_time(block) } else { time_at_entry };
                                 handle_block_of_breakable_stmt!(block);
                             }
                         },
@@ -358,10 +370,17 @@ impl AstVm {
                     let count = self.eval_int(count, resolutions);
                     self.write_var_by_ast(clobber, ScalarValue::Int(count), resolutions);
 
+                    let time_at_entry = self.time;
                     self.time = end_time(block);
                     if count != 0 {
+                        // the first iteration is entered by falling through, not by a jump
+                        self.time = time_at_entry;
+                        let mut first_iteration = true;
                         loop {
-                            self.time = start_time(block);
+                            if !first_iteration {
+                                self.time = start_time(block);
+                            }
+                            first_iteration = false;
                             handle_block_of_breakable_stmt!(block);
 
                             match self.read_var_by_ast(clobber, resolutions) {
